@@ -368,6 +368,33 @@ fn worker(batch: &str, o: &Opts, out: &mut dyn FnMut(String)) {
                 }
             }
         }
+        "lowdepth" => {
+            // (C07 only) the constructor accepts u8 frames whatever `bit_depth` says (the sample scan is for 16-bit storage),
+            // also depths 1..=7 with samples above 2^n - 1: whatever such a frame decodes TO, every access must stay inside
+            // its buffer.  Outcomes (errors, panics on an unsupported depth) are not judged here, only the hooked sites.
+            for n in 1u8..=7 {
+                for full in [true, false] {
+                    for (w, h, sx, sy) in [(24usize, 24usize, 0u8, 0u8), (16, 16, 1, 1), (64, 3, 0, 0), (40, 40, 1, 0)] {
+                        let c = Cfg { mc: MC_STD[usize::from(n) % 7], tc: 1, cp: 1, full, n, ssx: sx, ssy: sy };
+                        let px: Vec<[u16; 3]> = (0..w * h).map(|i| if i % 7 == 0 { [255, 255, 255] } else { [rng.below(256) as u16, rng.below(256) as u16, rng.below(256) as u16] }).collect();
+                        for call in ["YuvToRgb", "YuvToXyb"] {
+                            let mut s = format!("\"ev\":\"total\",\"stage\":\"dec\",\"call\":\"{call}\",\"cfg\":{},\"st\":8,\"input\":\"codes\",\"npx\":{},\"w\":{w},\"h\":{h},", c.json(), px.len());
+                            run_guarded(&mut s, |b| {
+                                let y = Yuv::<u8>::new(frame_from_pixels::<u8>(&px, w, h, sx, sy, [(0, 0), (3, 1), (0, 2)]), c.yuv_config()).map_err(|e| format!("ctor:{}", crate::frames::err_name_yuv(e)))?;
+                                let d = if call == "YuvToRgb" {
+                                    Rgb::try_from(&y).map_err(|e| crate::frames::err_name_conv(e).to_string())?.into_data()
+                                } else {
+                                    Xyb::try_from(&y).map_err(|e| crate::frames::err_name_conv(e).to_string())?.into_data()
+                                };
+                                let _ = write!(b, "\"nonfinite\":{},\"len\":{},", nonfinite(&d), d.len());
+                                Ok(())
+                            });
+                            out(s);
+                        }
+                    }
+                }
+            }
+        }
         "unspecsz" => {
             // Unspecified metadata is a supported configuration (it is resolved from the picture size): the composite encode
             // and the decode for every height / width in bands around the thresholds of the size heuristic and around
@@ -415,8 +442,11 @@ fn worker(batch: &str, o: &Opts, out: &mut dyn FnMut(String)) {
     std::panic::set_hook(prev);
 }
 
-pub fn batches() -> Vec<String> {
+pub fn batches(for_c07: bool) -> Vec<String> {
     let mut v = Vec::new();
+    if for_c07 {
+        v.push("lowdepth".to_string());
+    }
     for t in TC_SUP {
         v.push(format!("tf:{t}:lin"));
         v.push(format!("tf:{t}:gam"));
@@ -480,7 +510,7 @@ pub fn gen_c13(sh: &mut Shards, o: &Opts, only: Option<&str>) -> serde_json::Val
     let exe = std::env::current_exe().expect("exe");
     let mut calls = 0u64;
     let mut aborted = 0u64;
-    let all = batches();
+    let all = batches(o.as_prop == "C07");
     // run the batches as child processes, a few at a time
     let par = 12usize;
     let mut idx = 0;
